@@ -69,17 +69,25 @@ impl TryFrom<&SnmpOid<'_>> for String {
 
     fn try_from(value: &SnmpOid) -> Result<Self, Self::Error> {
         let mut r = String::with_capacity(value.0.len() * 5);
-        let mut iter = value.0.iter();
-        // First two subelements
-        let first = iter.next().ok_or(SnmpError::InvalidData)?;
-        write!(r, "{}.{}", first / 40, first % 40).map_err(|_| SnmpError::InvalidData)?;
+        // The first subidentifier packs the first two arcs as 40 * X + Y
+        // and spans several octets when X is 2 and Y is large (X.690 pp 8.19.4)
+        let mut first = true;
         let mut b = 0u32;
-        for c in iter {
+        for c in value.0.iter() {
             b = (b << 7) + ((*c as u32) & 0x7f);
             if c & 0x80 == 0 {
-                write!(r, ".{}", b).map_err(|_| SnmpError::InvalidData)?;
+                if first {
+                    let x = if b < 80 { b / 40 } else { 2 };
+                    write!(r, "{}.{}", x, b - 40 * x).map_err(|_| SnmpError::InvalidData)?;
+                    first = false;
+                } else {
+                    write!(r, ".{}", b).map_err(|_| SnmpError::InvalidData)?;
+                }
                 b = 0;
             }
+        }
+        if first {
+            return Err(SnmpError::InvalidData);
         }
         Ok(r)
     }
